@@ -25,6 +25,10 @@ class SandboxBasicTracer:
     """
 
     """
+    # How many times this tracer has been entered without being exited; a
+    # student file imported during a traced run enters the same tracer again
+    _depth = 0
+
     def __init__(self):
         super().__init__()
         self.filename = "student.py"
@@ -60,6 +64,9 @@ class SandboxCoverageTracer(SandboxBasicTracer):
         self.lines = set()
 
     def __enter__(self):
+        self._depth += 1
+        if self._depth > 1:
+            return
         # Force coverage to accept the code
         self.original = coverage.python.get_python_source
 
@@ -76,6 +83,9 @@ class SandboxCoverageTracer(SandboxBasicTracer):
         self.coverage.start()
 
     def __exit__(self, exc_type, exc_val, traceback):
+        self._depth -= 1
+        if self._depth:
+            return
         self.coverage.stop()
         self.coverage.save()
         # Restore the get_python_source reader
@@ -120,10 +130,16 @@ class SandboxNativeTracer(SandboxBasicTracer):
         self.step_index = 1
 
     def __enter__(self):
+        self._depth += 1
+        if self._depth > 1:
+            return
         self.old_tracer = sys.gettrace()
         sys.settrace(self.tracer)
 
     def __exit__(self, exc_type, exc_val, traceback):
+        self._depth -= 1
+        if self._depth:
+            return
         sys.settrace(self.old_tracer)
 
     def is_tracked_file(self, frame):
@@ -179,11 +195,17 @@ class SandboxCallTracer(SandboxBasicTracer, Bdb):
         self.calls[name].append(code)
 
     def __enter__(self):
+        self._depth += 1
+        if self._depth > 1:
+            return
         self.reset()
         self._old_trace = sys.gettrace()
         sys.settrace(self.trace_dispatch)
 
     def __exit__(self, exc_type, exc_val, traceback):
+        self._depth -= 1
+        if self._depth:
+            return
         sys.settrace(self._old_trace)
         self.quitting = True
         # Return true to suppress exception (if it is a BdbQuit)
